@@ -17,6 +17,7 @@ import argparse, hashlib, importlib.util, json, os, re, resource, shutil, subpro
 HERE = os.path.dirname(os.path.abspath(__file__))
 VERIF = os.path.dirname(HERE)
 REPO = os.environ.get('VERIF_REPO', '/repo')
+PARTIAL_RUN = False
 RT = os.path.join(HERE, 'rt')
 SHIM = os.path.join(HERE, 'shim')
 CLANG = 'clang++-14'
@@ -453,8 +454,11 @@ def write_evidence(pid, tier, seed, spec, qs, units, wall, violations, inconclus
         'wall_s': round(wall, 1),
         'violations': violations,
     }
-    os.makedirs(os.path.join(VERIF, 'evidence'), exist_ok=True)
-    with open(os.path.join(VERIF, 'evidence', pid + '.json'), 'w') as f:
+    # the committed evidence file describes a FULL run against /repo; partial (--only) runs and runs against a scratch worktree
+    # (VERIF_REPO) write their evidence to a scratch directory instead
+    evdir = os.path.join(VERIF, 'evidence') if (not PARTIAL_RUN and REPO == '/repo') else '/var/tmp/verif/evidence_partial'
+    os.makedirs(evdir, exist_ok=True)
+    with open(os.path.join(evdir, pid + '.json'), 'w') as f:
         json.dump(ev, f, indent=1)
 
 
@@ -494,6 +498,8 @@ def main():
     try:
         allq = [Query(pid, d) for d in spec.queries('thorough' if a.replay else tier)]
         if a.only:
+            global PARTIAL_RUN
+            PARTIAL_RUN = True
             sel = a.only.split(',')
             allq = [q for q in allq if any(re.fullmatch(s, q.name) for s in sel)]
         harn_by_unit = {}
